@@ -16,7 +16,11 @@ FLIP = {'Eq': 'Eq', 'NotEq': 'NotEq', 'Lt': 'Gt', 'Gt': 'Lt', 'LtE': 'GtE', 'GtE
 
 
 def evaluate(e, env):
-    """value of a test expression under env (name -> True/False/None), or UNKNOWN"""
+    """value of a test expression under env (name -> True/False/None; '=<expression text>' -> assumed value), or UNKNOWN"""
+    if not isinstance(e, (ast.Constant, ast.Name)):
+        k = '=' + norm(e)
+        if k in env:
+            return env[k]
     if isinstance(e, ast.Constant):
         return e.value
     if isinstance(e, ast.Name):
@@ -53,7 +57,44 @@ def evaluate(e, env):
     return UNKNOWN
 
 
-def simulate(g, start, stops, env, track=()):
+def _refine(e, pol, env, watch):
+    """the environments that taking the `pol` side of test e can leave for the watched expressions (a disjunction is split into its cases)"""
+    if isinstance(e, ast.UnaryOp) and isinstance(e.op, ast.Not):
+        return _refine(e.operand, not pol, env, watch)
+    if isinstance(e, ast.BoolOp):
+        conj = (isinstance(e.op, ast.And) and pol) or (isinstance(e.op, ast.Or) and not pol)
+        if conj:
+            envs = [env]
+            for v in e.values:
+                envs = [e3 for e2 in envs for e3 in _refine(v, pol, e2, watch)]
+            return envs
+        # disjunction: the first operand decides, or it does not and the rest decides (short-circuit order)
+        first, rest = e.values[0], e.values[1:]
+        out = list(_refine(first, pol, env, watch))
+        if rest:
+            restexpr = rest[0] if len(rest) == 1 else ast.BoolOp(op=e.op, values=rest)
+            for e2 in _refine(first, not pol, env, watch):
+                out.extend(_refine(restexpr, pol, e2, watch))
+        return out
+    env = dict(env)
+    if isinstance(e, ast.Compare) and len(e.ops) == 1 and isinstance(e.comparators[0], ast.Constant) and isinstance(e.comparators[0].value, bool):
+        k = norm(e.left)
+        if k in watch:
+            c = e.comparators[0].value
+            if isinstance(e.ops[0], (ast.Is, ast.Eq)):
+                env['=' + k] = c if pol else (not c)
+            elif isinstance(e.ops[0], (ast.IsNot, ast.NotEq)):
+                env['=' + k] = (not c) if pol else c
+        return [env]
+    k = norm(e)
+    if k in watch:
+        if ('=' + k) in env and env['=' + k] != pol:
+            return []           # contradicts what is already known on this path
+        env['=' + k] = pol
+    return [env]
+
+
+def simulate(g, start, stops, env, track=(), watch=()):
     """explore the CFG from `start` with constant propagation of the locals in env; stop at nodes in `stops` (not expanded).
     Returns [(stop node, env dict, frozenset of tracked nodes visited)]; a (node, env, visited) state is expanded once."""
     out = []
@@ -82,6 +123,13 @@ def simulate(g, start, stops, env, track=()):
                     pairs.append((t, getattr(n.ast, 'value', None) if isinstance(n.ast, ast.Assign) else None))
             new = dict(e)
             for t, v in pairs:
+                dt = norm(t) if isinstance(t, ast.Attribute) else None
+                if dt is not None and (dt in watch or ('=' + dt) in new):
+                    val = evaluate(v, e) if v is not None else UNKNOWN
+                    if isinstance(val, bool):
+                        new['=' + dt] = val
+                    else:
+                        new.pop('=' + dt, None)
                 for nm in ast.walk(t):
                     if isinstance(nm, ast.Name) and isinstance(nm.ctx, ast.Store):
                         val = evaluate(v, e) if (v is not None and isinstance(t, ast.Name)) else UNKNOWN
@@ -100,11 +148,14 @@ def simulate(g, start, stops, env, track=()):
             if v is not UNKNOWN:
                 lab = 'true' if v else 'false'
                 succ = [(m, l) for m, l in succ if l == lab or l not in ('true', 'false')]
-        envt2 = tuple(sorted(e.items(), key=lambda kv: kv[0]))
         for m, l in succ:
             if l == 'exc':
                 continue
-            todo.append((m, envt2, vis))
+            variants = [e]
+            if n.kind == 'test' and watch and l in ('true', 'false'):
+                variants = _refine(n.ast, l == 'true', e, watch)
+            for e2 in variants:
+                todo.append((m, tuple(sorted(e2.items(), key=lambda kv: kv[0])), vis))
     return out
 
 
@@ -137,4 +188,27 @@ def must_atoms(g, node, fnode, params=()):
         for lab, pol in (('true', True), ('false', False)):
             if guarded_by_edge(g, node, x, lab):
                 _atoms(expand_locals(x.ast, fnode, params=params), pol, out)
+    return out
+
+
+def reachable_under(g, node, facts, env=None):
+    """can `node` execute when the expressions in `facts` ({expression text: bool}) have the given values at every test?  (the caller makes sure
+    nothing in the function assigns them)"""
+    e = dict(env or {})
+    for k, v in facts.items():
+        e['=' + k] = v
+    if node is g.entry:
+        return True
+    return any(stop is node for stop, _env, _vis in simulate(g, g.entry, {node}, e))
+
+
+def values_at(g, node, watch, env=None):
+    """the valuations of the watched boolean expressions (attribute paths, call texts) with which `node` can be reached: a list of dicts
+    {expression text: True/False} (absent = unknown) - path-sensitive constant propagation through tests, assignments, and/or/not"""
+    out = []
+    if node is g.entry:
+        return [{}]
+    for stop, e, _vis in simulate(g, g.entry, {node}, dict(env or {}), watch=set(watch)):
+        if stop is node:
+            out.append({k[1:]: v for k, v in e.items() if k.startswith('=')})
     return out
